@@ -286,6 +286,19 @@ pub fn gen_tape(r: &mut Rng, profile: Profile, allow_sweep: bool) -> Tape {
             tape.entries[dir].insert(o, Fault::Delay { ms: r.range(200, 1000) as u32 });
         }
     }
+    if profile == Profile::Bounded && r.one_in(3) {
+        // a stall: one direction holds 5..40 consecutive datagrams for 150..1500 ms (a queue that builds up and
+        // drains, a route change). Everything in flight towards it is declared lost by time although it arrives:
+        // spurious loss reports, merged retransmissions, then late acknowledgements of the originals — the histories
+        // in which send-buffer recolouring and loss/ack bookkeeping interact. Entries already on the tape (drops,
+        // duplicates) stay, so some originals and some retransmissions are really lost.
+        let dir = r.usize_below(2);
+        let from = r.below(horizon as u64 + 20) as u32;
+        let hold = r.range(150, 1500) as u32;
+        for o in from..from + r.range(5, 40) as u32 {
+            tape.entries[dir].entry(o).or_insert(Fault::Delay { ms: hold });
+        }
+    }
     if allow_sweep && r.one_in(4) {
         let dir = r.usize_below(2);
         tape.entries[dir].insert(r.below(12) as u32, Fault::FlipSweep);
